@@ -222,6 +222,9 @@ class LayerImpl:
                 self.layer.clear()
                 self.hist = []
                 return {"t": "ok"}
+            if a == "clear_fb":
+                self.layer.clear(submodules=False)
+                return {"t": "ok"}
             if a == "learn":
                 for c in self.conns:
                     c.weight = c.weight.data + 1
@@ -234,6 +237,7 @@ class LayerImpl:
         B, S = self.BATCH, self.scale
         del self.log[:]
         w = self._w()
+        fb_was_none = self.kind == "recurrent" and self.layer.feedback_spikes is None
         ins = [None if v == 0 else torch.full((B, *self.extshape[i]), float(v), dtype=F64) for i, v in enumerate(x)]
         if self.kind == "serial":
             out, mid = self.layer(ins[0], capture_intermediate=True)
@@ -258,7 +262,7 @@ class LayerImpl:
                 cin[rec[1] - 1] = rec[2]
         y = [scalar_of(t, self.neurs[n].batchedshape, S) for n, t in enumerate(ys)]
         cout = [scalar_of(t, (B, *self.conns[c].outshape)) if t is not None else -1 for c, t in enumerate(mids)]
-        self.hist.append({"x": x, "w": w})
+        self.hist.append({"x": x, "w": w, "cut": bool(self.kind == "recurrent" and fb_was_none and len(self.hist) > 0)})
         return {"t": "out", "y": y, "nin": nin, "cin": cin, "cout": cout}
 
     # ------------------------------------------------------------------ projection
